@@ -37,6 +37,8 @@ type schedState struct {
 	onces    map[Ptr]bool
 	wgThreads sync.WaitGroup
 	switches int
+	preempts   int
+	maxPreempt int // -1: unbounded
 }
 
 func (in *Interp) newThread() *thread {
@@ -98,9 +100,9 @@ func (in *Interp) spawn(fr *frame, fn Value, args []Value) {
 		th.done = true
 		in.threadExit(th)
 	}()
-	if in.sched.explore {
-		in.schedulePoint("go")
-	}
+	// no scheduling point here: in a data-race-free program the child's first
+	// steps commute with the parent's up to the parent's next synchronisation
+	// operation, where a switch is considered
 }
 
 // candidates lists the threads other than cur that could run now.
@@ -137,9 +139,7 @@ func (in *Interp) threadExit(th *thread) {
 		return
 	}
 	next := c[0]
-	if in.sched.explore && len(c) > 1 {
-		next = c[in.ex.Choice(len(c))]
-	}
+	// deterministic (lowest id first), see waitUntil
 	in.cur = next
 	in.sched.switches++
 	next.wake <- struct{}{}
@@ -165,9 +165,9 @@ func (in *Interp) waitUntil(cond func() bool, why string) {
 			in.abort("deadlock", in.describeBlocked(), in.where())
 		}
 		next := c[0]
-		if in.sched.explore && len(c) > 1 {
-			next = c[in.ex.Choice(len(c))]
-		}
+		// deterministic (lowest id first): the order of segments that are not
+		// critical sections does not matter in a data-race-free program, and
+		// races are detected by the happens-before monitor in any order
 		in.switchTo(next)
 		me.blocked = nil
 	}
@@ -181,10 +181,16 @@ func (in *Interp) schedulePoint(why string) {
 	if len(c) == 0 {
 		return
 	}
+	// switching away from a thread that could continue is a preemption;
+	// executions with more than the configured number are not explored
+	if in.sched.maxPreempt >= 0 && in.sched.preempts >= in.sched.maxPreempt {
+		return
+	}
 	k := in.ex.Choice(len(c) + 1)
 	if k == 0 {
 		return
 	}
+	in.sched.preempts++
 	in.switchTo(c[k-1])
 }
 
@@ -193,12 +199,18 @@ func (in *Interp) settle() {
 	for {
 		c := in.candidates()
 		if len(c) == 0 {
+			// waiting for everything else to finish orders it before what follows
+			for _, t := range in.threads {
+				if t != in.cur && t.done {
+					vcJoin(in.cur.vc, t.vc)
+				}
+			}
 			return
 		}
 		next := c[0]
-		if in.sched.explore && len(c) > 1 {
-			next = c[in.ex.Choice(len(c))]
-		}
+		// deterministic (lowest id first): the order of segments that are not
+		// critical sections does not matter in a data-race-free program, and
+		// races are detected by the happens-before monitor in any order
 		in.switchTo(next)
 	}
 }
@@ -255,9 +267,8 @@ func (in *Interp) unlock(fr *frame, p Ptr) {
 	m.vc = map[int]int{}
 	vcJoin(m.vc, in.cur.vc)
 	in.cur.vc[in.cur.id]++
-	if in.sched.explore {
-		in.schedulePoint("unlock")
-	}
+	// (a switch right after Unlock is equivalent to one at this thread's next
+	// synchronisation operation or exit)
 }
 
 func (in *Interp) wg(p Ptr) *wgState {
